@@ -15,6 +15,7 @@ mod evalcmd;
 mod parsecmd;
 mod manifestcmd;
 mod numop;
+mod lazycmd;
 mod util;
 
 type Handler = fn(&Value) -> Value;
@@ -80,6 +81,7 @@ fn main() {
 		"parse" => run_lines(parsecmd::handle),
 		"manifest" => run_lines(manifestcmd::handle),
 		"numop" => run_lines(numop::handle),
+		"lazy" => run_lines(lazycmd::handle),
 		"version" => println!("jrharness 1"),
 		_ => {
 			eprintln!("usage: jrharness <eval|...>");
